@@ -14,6 +14,7 @@ import ScpiVerif.Drv.IntFmt
 import ScpiVerif.Drv.Queue
 import ScpiVerif.Drv.Regs
 import ScpiVerif.Drv.Heap
+import ScpiVerif.Drv.Lexer
 open ScpiVerif.Drv
 
 def dispatch (cfg : String) (inp : List String) (obs : List String) : Option Verdict :=
@@ -22,6 +23,7 @@ def dispatch (cfg : String) (inp : List String) (obs : List String) : Option Ver
   | some "Q" => runQueue cfg inp obs
   | some "R" => runRegs inp obs
   | some "H" => runHeap inp obs
+  | some "L" => runLexer inp obs
   | _ => none
 
 structure Stats where
